@@ -8,6 +8,7 @@ package middleware
 //@ macro ridOf(c) = unboxStr(ctxVal(c, ridKey()).val)
 
 //@ func fixedSampler.Sample
+//@   params s
 //@   property C19
 //@   callspec intn params n
 //@       ensures 0 <= result && result < n
@@ -17,6 +18,7 @@ package middleware
 //@   frameprop C20
 
 //@ func GenerateRequestID
+//@   params ctx o
 //@   property C19
 //@   let in0 = ctxVal(ctx, ridKey())
 //@   let s = unboxStr(in0.val)
@@ -36,6 +38,7 @@ package middleware
 //@ ghost var lastSpanID String
 
 //@ func (*TraceOptions).TraceID
+//@   params o
 //@   requires o != nil
 //@   callspec traceIDFunc
 //@       ensures lastTraceID == result
@@ -44,6 +47,7 @@ package middleware
 //@   modifies lastTraceID
 
 //@ func (*TraceOptions).SpanID
+//@   params o
 //@   requires o != nil
 //@   callspec spanIDFunc
 //@       ensures lastSpanID == result
@@ -55,6 +59,7 @@ package middleware
 //@ macro shas(c, k) = typeIs(ctxVal(c, iface(string, k)), string)
 
 //@ func WithSpan
+//@   params ctx traceID spanID parentID
 //@   property C19
 //@   requires ctx != nil
 //@   requires TraceIDKey != TraceSpanIDKey && TraceIDKey != TraceParentSpanIDKey && TraceSpanIDKey != TraceParentSpanIDKey
@@ -67,10 +72,12 @@ package middleware
 //@   modifies nothing
 
 //@ func NewFixedSampler
+//@   params samplingPercent
 //@   ensures fixed: typeIs(result, fixedSampler) && result.val == samplingPercent
 //@   modifies nothing
 
 //@ func (*TraceOptions).NewSampler
+//@   params o
 //@   requires o != nil
 //   -- the adaptive sampler reads the clock
 //@   requires envReadable
